@@ -232,7 +232,10 @@ def conclude(pid, tier, seed, P, results, t0, verbose):
             errors.append(o)
             continue
         if v == "UNDECIDED":
-            undecided.append(o)
+            if o.get("needs_standin") and any(b.get("kind") == "bounded" and b["verdict"] == "HELD" for b in all_obl):
+                lost.append(o)
+            else:
+                undecided.append(o)
             continue
         if v == "UNDECIDED_BOUNDED_HELD":
             lost.append(o)
